@@ -139,6 +139,41 @@ example : ∃ d d', dwells [0, 0, 1, 1, 1, 0, 2] false = some d ∧ totalCounts 
     rle [0, 0, 1, 1, 1, 0, 2] = ⟨0, 0, 2⟩ :: ([⟨1, 2, 5⟩, ⟨0, 5, 6⟩] ++ [⟨2, 6, 7⟩]) :=
   ⟨_, _, rfl, by decide, rfl, by decide, by decide⟩
 
+/-- **Argument check and error branches of `_dwellcounts_from_statepath`**: a path with a NaN label
+    fails the `isfinite` assertion; every other path (the empty one included) gives the dictionary
+    of `dwells_all` — `IndexError` / `ValueError` from the index arithmetic never occur. -/
+theorem dwellsChecked_spec (path : List (Option Int)) (exclude : Bool) :
+    (none ∈ path ∧ dwellsChecked path exclude = .error "Error:AssertionError") ∨
+    (∃ p : List Int, path = p.map some ∧
+      dwellsChecked path exclude = .ok ((uniq p).map fun s =>
+        (s, (((if exclude then (rle p).tail.dropLast else rle p).filter
+          (fun r => r.state = s)).map Run.range)))) := by
+  rcases all_some_or_none path with ⟨p, rfl⟩ | h
+  · right
+    refine ⟨p, rfl, ?_⟩
+    simp only [dwellsChecked, mapM_id_some, dwells_all]
+  · left
+    exact ⟨h, by simp only [dwellsChecked, mapM_id_none path h]⟩
+
+/-- **Argument check of `HiddenMarkovModel.__init__`**: accepted exactly for no initial guess or a
+    model (GMM / HMM) with the requested number of states; `ValueError` for another number of
+    states, `TypeError` for anything else. -/
+theorem initCheck_spec (n : Nat) (g : Guess) :
+    (initCheck n g = none ↔ (g = .none ∨ g = .gmm n ∨ g = .hmm n)) ∧
+    (initCheck n g = some "ValueError" ↔ ∃ m, m ≠ n ∧ (g = .gmm m ∨ g = .hmm m)) ∧
+    (initCheck n g = some "TypeError" ↔ g = .other) := by
+  cases g with
+  | none => simp [initCheck]
+  | other => simp [initCheck]
+  | gmm m =>
+    by_cases h : m = n
+    · subst h; simp [initCheck]
+    · simp [initCheck, h]
+  | hmm m =>
+    by_cases h : m = n
+    · subst h; simp [initCheck]
+    · simp [initCheck, h]
+
 /-! ## Forward–backward -/
 
 /-- The product of the scaling factors is the exact likelihood `Σ_paths P(path, y)` (all `K^T` state
